@@ -12,6 +12,19 @@ import (
 
 // retryLoop analyses the retry closure. aspects selects which obligations are reported:
 // "loop" (C02), "recheck"/"returns" (C08), "wait" (C13), "listeners" (C16).
+// sameDelay: t is the delay d itself, or max(0, d) — getDelay's value is non-negative on every path (C13.envelope), so
+// clamping it at zero again is the identity.
+func sameDelay(t, d *T) bool {
+	if t == d {
+		return true
+	}
+	if t != nil && t.Op == "app" && t.Aux == "max" && len(t.Args) == 2 {
+		a, b := t.Args[0], t.Args[1]
+		return (a == d && isZeroInt(b)) || (b == d && isZeroInt(a))
+	}
+	return false
+}
+
 func retryLoop(c *Ctx, aspects map[string]bool) {
 	tab := c.ExecTable()
 	info := tab["retrypolicy"]
@@ -141,7 +154,7 @@ func retryLoop(c *Ctx, aspects map[string]bool) {
 				if rec == nil || rec.Args[0] != pr || isNil(p, rec.Res[0]) != triT || rec.Idx < post.Idx {
 					fail("recheck", p, evs[end], "a new attempt starts without RecordResult(handled result) having returned nil (cancellation test before the wait)")
 				}
-				if gd == nil || tim == nil || sel == nil || tim.Args[0] != gd.Res[0] || !(rec != nil && rec.Idx < tim.Idx && tim.Idx < sel.Idx) {
+				if gd == nil || tim == nil || sel == nil || !sameDelay(tim.Args[0], gd.Res[0]) || !(rec != nil && rec.Idx < tim.Idx && tim.Idx < sel.Idx) {
 					fail("wait", p, evs[end], "a new attempt starts without waiting on a timer whose duration is getDelay's value, after the result was recorded")
 				} else {
 					// select: one case on that timer's channel, one on the execution's cancellation
@@ -192,7 +205,7 @@ func retryLoop(c *Ctx, aspects map[string]bool) {
 						good := sched != nil && rec != nil && tim != nil && sched.Idx > rec.Idx && sched.Idx < sel.Idx && count(func(e *Event) bool { return dynFieldCall(e, "onRetryScheduled") }) == 1
 						if good {
 							evt := sched.Args[0]
-							if !(evt.Op == "struct" && len(evt.Args) == 2 && gd != nil && evt.Args[1] == gd.Res[0]) {
+							if !(evt.Op == "struct" && len(evt.Args) == 2 && gd != nil && sameDelay(evt.Args[1], gd.Res[0]) && (tim == nil || evt.Args[1] == tim.Args[0])) {
 								good = false
 							}
 							if good && !copyOf(p, evt.Args[0], exec, post.Res[0]) {
